@@ -7,6 +7,7 @@ import (
 	"fmt"
 	"log/slog"
 	"os"
+	"reflect"
 	"testing"
 
 	"github.com/slackhq/nebula/header"
@@ -176,7 +177,7 @@ func TestVerifC12(t *testing.T) {
 						ok[i] = cs.VerifyRelay(l, op.counter, pkt, nb) == nil
 					} else {
 						pkt := append([]byte(nil), fx.pkts[op.counter]...)
-						out, err := cs.Decrypt(l, op.counter, pkt, nb)
+						out, err := c12Decrypt(cs, l, op.counter, pkt, nb)
 						ok[i] = err == nil
 						payload[i] = out
 					}
@@ -284,6 +285,45 @@ func c12RelayFrames(net *vnet) [][]byte {
 	return uniq
 }
 
+
+// c12Decrypt calls ConnectionState.Decrypt through reflection, filling the parameters by type (logger, counter, packet,
+// nonce buffer; any extra bool parameter — e.g. "arrived inside a relay frame" — is passed as false): a change of the
+// method's signature must not stop the harness from building.
+func c12Decrypt(cs *ConnectionState, l *slog.Logger, counter uint64, pkt, nb []byte) ([]byte, error) {
+	m := reflect.ValueOf(cs).MethodByName("Decrypt")
+	mt := m.Type()
+	var args []reflect.Value
+	bytesSeen := 0
+	for i := 0; i < mt.NumIn(); i++ {
+		switch t := mt.In(i); {
+		case t == reflect.TypeOf(l):
+			args = append(args, reflect.ValueOf(l))
+		case t.Kind() == reflect.Uint64:
+			args = append(args, reflect.ValueOf(counter).Convert(t))
+		case t.Kind() == reflect.Slice && t.Elem().Kind() == reflect.Uint8:
+			if bytesSeen == 0 {
+				args = append(args, reflect.ValueOf(pkt))
+			} else {
+				args = append(args, reflect.ValueOf(nb))
+			}
+			bytesSeen++
+		default:
+			args = append(args, reflect.Zero(t))
+		}
+	}
+	res := m.Call(args)
+	var out []byte
+	var err error
+	for _, r := range res {
+		if b, ok := r.Interface().([]byte); ok {
+			out = b
+		} else if e, ok := r.Interface().(error); ok {
+			err = e
+		}
+	}
+	return out, err
+}
+
 // c12Rewrap makes R send the inner packet of frame towards B in a fresh relay frame (new outer counter), using R's real
 // SendVia with its real forwarding slot, and leaves it in flight.
 func c12Rewrap(net *vnet, frame []byte) {
@@ -322,6 +362,17 @@ func c12Wire(t *testing.T, c *mc.Check) (int64, int64) {
 		d.tunSend(vUDPPacket(d.vpnIP, b.vpnIP, 1, 2, []byte(markers[1]))) // direct
 		net.collect()
 		for _, ev := range hist {
+			if ev.Kind == "unwrap" {
+				// the inner end-to-end packet of a relay frame is only authenticated, not encrypted, by the frame: anybody on the
+				// path can cut it out and send it to B as a plain direct datagram (from A's address)
+				frames := c12RelayFrames(net)
+				if ev.Idx >= len(frames) {
+					return net, false
+				}
+				f := frames[ev.Idx]
+				net.inflight = append(net.inflight, vpkt{From: a.udp, To: b.udp, Data: append([]byte(nil), f[header.Len:len(f)-16]...)})
+				continue
+			}
 			if ev.Kind == "rewrap" {
 				// hostile relay: R wraps an end-to-end packet it has already forwarded into a FRESH authentic relay frame
 				frames := c12RelayFrames(net)
@@ -362,7 +413,7 @@ func c12Wire(t *testing.T, c *mc.Check) (int64, int64) {
 			}
 		}
 	}
-	var scripted int64
+	var scripted, unwrapped int64
 	relayIdx := func(net *vnet, toB bool) int {
 		for i, p := range net.inflight {
 			var h header.H
@@ -377,6 +428,9 @@ func c12Wire(t *testing.T, c *mc.Check) (int64, int64) {
 		{"toR", "rewrap", "toB", "toB", "rewrap", "toB"},
 		{"toR", "rewrap", "rewrap", "toB", "toB", "toB"},
 		{"toR", "dropB", "rewrap", "toB", "rewrap", "toB"},
+		{"toR", "toB", "unwrap", "direct"},
+		{"toR", "unwrap", "direct", "toB"},
+		{"toR", "unwrap", "toB", "direct"},
 	} {
 		net, _ := build(nil)
 		var hist []c12Ev
@@ -398,6 +452,21 @@ func c12Wire(t *testing.T, c *mc.Check) (int64, int64) {
 				if fr := c12RelayFrames(net); len(fr) > 0 {
 					c12Rewrap(net, fr[len(fr)-1]) // the most recent end-to-end packet = the marked one
 				}
+			case "unwrap":
+				if fr := c12RelayFrames(net); len(fr) > 0 {
+					f := fr[len(fr)-1]
+					a, b := net.node("a"), net.node("b")
+					net.inflight = append(net.inflight, vpkt{From: a.udp, To: b.udp, Data: append([]byte(nil), f[header.Len:len(f)-16]...)})
+					unwrapped++
+				}
+			case "direct":
+				for i, p := range net.inflight {
+					var h header.H
+					if p.To == net.node("b").udp && p.From == net.node("a").udp && h.Parse(p.Data) == nil && h.Subtype != header.MessageRelay {
+						net.deliverAt(i, false)
+						break
+					}
+				}
 			}
 			hist = append(hist, c12Ev{st, 0})
 			scripted++
@@ -416,6 +485,8 @@ func c12Wire(t *testing.T, c *mc.Check) (int64, int64) {
 		net.close()
 	}
 	c.Set("scripted_hostile_relay_steps", scripted)
+	c.Set("scripted_unwrapped_inner_packets_sent_directly", unwrapped)
+	c.Require(unwrapped >= 3, "no inner packet was cut out of a relay frame and sent directly (%d)", unwrapped)
 	depth := mc.Pick(c, 5, 7)
 	res := mc.BFSReplay(c, mc.BFSConfig[c12Ev]{
 		MaxDepth: depth, Workers: 1, Stop: c.OutOfTime,
@@ -468,6 +539,15 @@ func c12Wire(t *testing.T, c *mc.Check) (int64, int64) {
 				for i := range c12RelayFrames(net) {
 					menu = append(menu, c12Ev{"rewrap", i})
 				}
+			}
+			unw := 0
+			for _, e := range hist {
+				if e.Kind == "unwrap" {
+					unw++
+				}
+			}
+			if fr := c12RelayFrames(net); unw < 1 && rew == 0 && len(fr) > 0 {
+				menu = append(menu, c12Ev{"unwrap", len(fr) - 1}) // the most recent end-to-end packet; not combined with re-wraps
 			}
 			key += fmt.Sprintf("|rewraps=%d frames=%d", rew, len(c12RelayFrames(net)))
 			return key, menu
